@@ -153,7 +153,7 @@ class CIDRConvertNative(Contract):
     id = "C18.convert_condition_field_eq_val_cidr"
     target = "sigma.conversion.base:TextQueryBackend.convert_condition_field_eq_val_cidr"
     props = ("C18",)
-    cases = ("native", "expand")
+    cases = ("native", "expand", "expand-under-not", "expand-under-and")
     assumed = ["templates are opaque: the contract is about which values are passed", "expand() summarised by a list of two patterns in the expansion case (element count unrolled)"]
 
     def setup(self, E):
@@ -172,7 +172,14 @@ class CIDRConvertNative(Contract):
         net.ghost["str"] = I.fresh("net_str", "str")
         pats = [I.fresh("pat0", "str"), I.fresh("pat1", "str")]
         cidr = SObj(I.E.index.lookup("sigma.types:SigmaCIDRExpression"), {"network": net, "cidr": I.fresh("cidr_text", "str"), "expand": NativeFn("expand", lambda I2, a, k: list(pats) if not a and not k else (_ for _ in ()).throw(OutsideSubset("expand with arguments")))}, lazy=True)
-        cond = SObj(I.E.index.lookup("sigma.conditions:ConditionFieldEqualsValueExpression"), {"field": I.fresh("field", "str"), "value": cidr, "source": None}, lazy=True)
+        # the context of the comparison: no parent / directly under NOT / directly under AND - the contexts in which an
+        # ungrouped OR of the patterns would be bound differently
+        parent = None
+        if case != "native" and case != "expand":
+            parent = SObj(I.E.index.lookup("sigma.conditions:ConditionNOT"), {"args": [], "source": None, "parent": None})
+            if case == "expand-under-and":
+                parent = SObj(I.E.index.lookup("sigma.conditions:ConditionAND"), {"args": [], "source": None, "parent": None})
+        cond = SObj(I.E.index.lookup("sigma.conditions:ConditionFieldEqualsValueExpression"), {"field": I.fresh("field", "str"), "value": cidr, "source": None, "parent": parent}, lazy=True)
         me = SObj(I.E.index.lookup("sigma.conversion.base:TextQueryBackend"), {"cidr_expression": SObj("Template", {"format": NativeFn("format", fmt)}) if case == "native" else None}, lazy=True)
         st = I.fresh("state", "opaque", "State")
         me.ghost["as_in"] = I.fresh("as_in_list", "bool")
@@ -196,7 +203,10 @@ class CIDRConvertNative(Contract):
                                                                           and x.fields["value"].fields.get("src") is p for x, p in zip(args_, inp["pats"]))
                 c.require(good, "one field == SigmaString(pattern) comparison per expanded pattern, same field, in order")
                 c.require(r.fields.get("state") is inp["state"], "conversion state passed on")
-                c.require(z3.BoolVal(bool(r.fields.get("grouped"))) == z3.Not(inp["self"].ghost["as_in"].t), "an expansion into several patterns is grouped unless it is folded into an in-list (it is an OR inside an unknown context)")
+                if inp["case"] == "expand":      # no parent: the grouping is not needed for the meaning, only the in-list case is pinned
+                    c.require(z3.Implies(inp["self"].ghost["as_in"].t, z3.BoolVal(not r.fields.get("grouped"))), "an expansion folded into an in-list is not grouped")
+                else:
+                    c.require(z3.BoolVal(bool(r.fields.get("grouped"))) == z3.Not(inp["self"].ghost["as_in"].t), "an expansion into several patterns is grouped unless it is folded into an in-list (it is an OR inside an unknown context)")
 
     def frame_ok(self, I, inp, obj, name):
         return False
